@@ -123,6 +123,6 @@ impl<T> CurrentTimerEntry<T> {
 // Verification harnesses (compiled only by `cargo kani`; inert otherwise).
 #[cfg(kani)]
 #[allow(dead_code, unused_imports)]
-mod verif {
+pub(crate) mod verif {
     include!(concat!(env!("BTDHT_VERIF"), "/harness/timer.rs"));
 }
